@@ -183,9 +183,11 @@ def main():
                     ps = [dyadic_triple(bits) for _ in range(rnd.choice([1, 2, 5]))] + [rnd.choice(FIXED[:12])]
                     add("eval", rnd.choice(HAZ + CLS), d, nodes, ps, "E")
         # (b) operator extraction: the identity net (= every unit net at once, dimension N), T regime
-        degs = list(range(1, 13)) + [28, 29, 30, 31, 32]
+        # 55 / 58: rows of the net with more than 55 nodes send the compiled row evaluation through its de Casteljau branch,
+        # with weights that do NOT sum to one (lambda1 + lambda2 = 1 - lambda3)
+        degs = list(range(1, 13)) + [28, 29, 30, 31, 32, 55, 58]
         if thorough:
-            degs = list(range(1, 41))
+            degs = list(range(1, 41)) + [54, 55, 56, 57, 60, 64]
         if search:
             degs = list(range(1, 25)) + [28, 29, 30, 31, 32, 33, 36, 40]
         for d in degs:
@@ -335,6 +337,10 @@ def main():
     def fail_key(c, what):
         if int32 and c["degree"] >= 30:
             return OVERFLOW_KEY
+        if what == "corner-inexact" and c["degree"] >= 52:
+            # the running binomial of the row loop exceeds 2^53 in its intermediate product from degree 52 on (the Lean theorem
+            # of corner exactness needs degree <= 51): the weight of the corner is then 1 up to a few ulps (finding F-X)
+            return "corner-inexact:degree>=52:running-binomial-rounds"
         return "%s:%s" % (what, c["routine"])
 
     for c in cases:
